@@ -1,3 +1,3 @@
 SPECIFICATION Spec
-INVARIANTS AllContextsCovered RunsCovered
+INVARIANTS AllContextsCovered RunsCovered FoldCovered
 CHECK_DEADLOCK FALSE
